@@ -127,6 +127,12 @@ type session struct {
 	idx     map[*tls.Certificate]int
 	firstPK *rsa.PublicKey
 	last    *tls.Certificate
+	// SHARED cases: ONE *tls.Config from TLSForHost(sharedFB) and ONE from TLS()
+	// serve every requester (as one listener config serves every connection)
+	sharedF  *tls.Config
+	sharedT  *tls.Config
+	sharedFB string
+	tvBefore bool // verification time = just before the call (sound under concurrent expiry)
 }
 
 func (s *session) index(c *tls.Certificate) int {
@@ -165,9 +171,15 @@ func errEnum(err error) string {
 
 func (s *session) tlsConf(r reqOp, a *answer) *tls.Config {
 	var conf *tls.Config
-	if r.api == "T" {
+	switch {
+	case r.api == "T" && s.sharedT != nil:
+		// Clone copies the GetCertificate func value: the SAME closure is called by all requesters
+		conf = s.sharedT.Clone()
+	case r.api != "T" && s.sharedF != nil:
+		conf = s.sharedF.Clone()
+	case r.api == "T":
 		conf = s.cfg.TLS()
-	} else {
+	default:
 		conf = s.cfg.TLSForHost(r.fb)
 	}
 	orig := conf.GetCertificate
@@ -191,11 +203,15 @@ func (s *session) doReq(r reqOp) (out string) {
 	conf := s.tlsConf(r, &a)
 	hs := "-"
 	var tvTime time.Time
+	if s.tvBefore {
+		tvTime = time.Now().Truncate(time.Millisecond)
+	}
 	if r.kind == 'G' {
 		conf.GetCertificate(&tls.ClientHelloInfo{ServerName: r.sni})
-		tvTime = time.Now().Truncate(time.Millisecond)
+		if !s.tvBefore {
+			tvTime = time.Now().Truncate(time.Millisecond)
+		}
 	} else {
-		tvTime = time.Time{}
 		ok := s.handshake(conf, r, &tvTime)
 		hs = "0"
 		if ok {
@@ -280,10 +296,14 @@ func (s *session) handshake(conf *tls.Config, r reqOp, tv *time.Time) bool {
 	dl := time.Now().Add(10 * time.Second)
 	cc.SetDeadline(dl)
 	sc.SetDeadline(dl)
-	var fixed time.Time
+	fixed := *tv // non-zero: the caller pinned the verification time
 	var once sync.Once
 	now := func() time.Time {
-		once.Do(func() { fixed = time.Now().Truncate(time.Millisecond) })
+		once.Do(func() {
+			if fixed.IsZero() {
+				fixed = time.Now().Truncate(time.Millisecond)
+			}
+		})
 		return fixed
 	}
 	ccfg := &tls.Config{RootCAs: w.roots, Time: func() time.Time { t := now(); *tv = t; return t }}
@@ -514,10 +534,103 @@ func runCase(in []string) []string {
 			out = append(out, s.doOp(op))
 		}
 		out = renumber(out)
+	case "SHARED":
+		// SHARED v o n<rounds> p<pause-ms> b<fallback-hex> (T op*)+ F op*
+		if len(ops) < 3 || ops[0][0] != 'n' || ops[1][0] != 'p' || ops[2][0] != 'b' {
+			return []string{"BADCASE"}
+		}
+		rounds, _ := strconv.Atoi(ops[0][1:])
+		pause, _ := strconv.Atoi(ops[1][1:])
+		if rounds < 1 || rounds > 100000 || pause < 0 || pause > 1000 {
+			return []string{"BADCASE"}
+		}
+		s.sharedFB = unhexS(ops[2][1:])
+		s.sharedF = s.cfg.TLSForHost(s.sharedFB)
+		s.sharedT = s.cfg.TLS()
+		s.tvBefore = true
+		var threads [][]string
+		var fin []string
+		inFin := false
+		for _, t := range ops[3:] {
+			switch {
+			case t == "T" && !inFin:
+				threads = append(threads, nil)
+			case t == "F":
+				inFin = true
+			default:
+				if r, ok := parseReq(t); !ok || (r.api != "T" && r.fb != s.sharedFB) {
+					return []string{"BADCASE"}
+				}
+				if inFin {
+					fin = append(fin, t)
+				} else if len(threads) == 0 {
+					return []string{"BADCASE"}
+				} else {
+					threads[len(threads)-1] = append(threads[len(threads)-1], t)
+				}
+			}
+		}
+		// per (thread, op): the distinct answers over all rounds (first occurrence of each
+		// (object, verification bits) kept), joined by '|'
+		outs := make([][][]string, len(threads))
+		var wg sync.WaitGroup
+		start := make(chan struct{})
+		for i := range threads {
+			outs[i] = make([][]string, len(threads[i]))
+			wg.Add(1)
+			go func(i int) {
+				defer wg.Done()
+				seen := make([]map[string]bool, len(threads[i]))
+				for j := range seen {
+					seen[j] = map[string]bool{}
+				}
+				<-start
+				for k := 0; k < rounds; k++ {
+					for j, op := range threads[i] {
+						o := s.doOp(op)
+						key := answerKey(o)
+						if !seen[j][key] {
+							seen[j][key] = true
+							outs[i][j] = append(outs[i][j], o)
+						}
+					}
+					if pause > 0 {
+						time.Sleep(time.Duration(pause) * time.Millisecond)
+					}
+				}
+			}(i)
+		}
+		close(start)
+		wg.Wait()
+		for i := range threads {
+			out = append(out, "T")
+			for j := range threads[i] {
+				out = append(out, strings.Join(outs[i][j], "|"))
+			}
+		}
+		out = append(out, "F")
+		for _, op := range fin {
+			out = append(out, s.doOp(op))
+		}
+		out = renumber(out)
 	default:
 		return []string{"BADCASE"}
 	}
 	return append(out, tables(in)...)
+}
+
+// answerKey: what makes two answers of one requester to one request differ
+// for the property: the object, its verification bits, the handshake result
+// (not the call times).
+func answerKey(o string) string {
+	p := strings.Split(o, ":")
+	if len(p) == 13 && p[0] == "C" {
+		return strings.Join([]string{p[1], p[2], p[6], p[10], p[11], p[12]}, ":")
+	}
+	if len(p) == 5 && p[0] == "R" {
+		return "R:" + p[1] + ":" + p[4]
+	}
+	return o
 }
 
 // renumber maps the object indices of C tokens to first-occurrence order of
@@ -525,15 +638,19 @@ func runCase(in []string) []string {
 func renumber(out []string) []string {
 	m := map[string]int{}
 	for i, t := range out {
-		if strings.HasPrefix(t, "C:") {
-			p := strings.SplitN(t, ":", 3)
-			k, ok := m[p[1]]
-			if !ok {
-				k = len(m)
-				m[p[1]] = k
+		subs := strings.Split(t, "|")
+		for j, u := range subs {
+			if strings.HasPrefix(u, "C:") {
+				p := strings.SplitN(u, ":", 3)
+				k, ok := m[p[1]]
+				if !ok {
+					k = len(m)
+					m[p[1]] = k
+				}
+				subs[j] = "C:" + strconv.Itoa(k) + ":" + p[2]
 			}
-			out[i] = "C:" + strconv.Itoa(k) + ":" + p[2]
 		}
+		out[i] = strings.Join(subs, "|")
 	}
 	return out
 }
@@ -625,7 +742,7 @@ func orgTok(r *hx.RNG) string {
 	return "o" + hx.HexS(orgs[r.Intn(len(orgs))])
 }
 
-func generate(cfg *hx.Config, rng *hx.RNG) []genCase {
+func generate(cfg *hx.Config, rng *hx.RNG, concOnly bool) []genCase {
 	var cs []genCase
 	n := 0
 	add := func(kind string, in []string) {
@@ -636,6 +753,12 @@ func generate(cfg *hx.Config, rng *hx.RNG) []genCase {
 	mult := 1
 	if cfg.Thorough() {
 		mult = 25
+	}
+	if concOnly {
+		// side run under the Go race detector (meta race_quick_extra): concurrent kinds only
+		genConc(cfg, rng, add, 3, true)
+		genShared(cfg, rng, add, 2, 1, 200, true)
+		return cs
 	}
 
 	// 1. every name class x every spelling, twice (second answer must be the cached object)
@@ -761,27 +884,45 @@ func generate(cfg *hx.Config, rng *hx.RNG) []genCase {
 		add("exp", in)
 	}
 
-	// 6. concurrent requesters: 16 threads over 4 names
-	nconc := 6 * mult
-	for k := 0; k < nconc; k++ {
-		r := rng.Fork()
-		type nm struct{ v, c string }
-		var names []nm
-		for len(names) < 4 {
-			v, c := pickName(r)
-			dup := false
-			for _, x := range names {
-				if strings.EqualFold(x.v, v) {
-					dup = true
-				}
-			}
-			if !dup {
-				names = append(names, nm{v, c})
+	// 6. concurrent requesters: 16 threads over 4 names, a fresh *tls.Config per handshake (as proxy.go does)
+	genConc(cfg, rng, add, 6*mult, false)
+	// 7. concurrent requesters sharing ONE TLSForHost config and ONE TLS() config, tight loops, and across an expiry
+	if cfg.Thorough() {
+		genShared(cfg, rng, add, 20, 8, 4000, false)
+	} else {
+		genShared(cfg, rng, add, 4, 2, 2000, false)
+	}
+	return cs
+}
+
+type nameClass struct{ v, c string }
+
+func distinctNames(r *hx.RNG, n int, dnsOnly bool) []nameClass {
+	var names []nameClass
+	for len(names) < n {
+		v, c := pickName(r)
+		if dnsOnly && c != "dns" && c != "dnsmixed" {
+			continue
+		}
+		dup := false
+		for _, x := range names {
+			if strings.EqualFold(x.v, v) {
+				dup = true
 			}
 		}
+		if !dup {
+			names = append(names, nameClass{v, c})
+		}
+	}
+	return names
+}
+
+func genConc(cfg *hx.Config, rng *hx.RNG, add func(string, []string), n int, race bool) {
+	for k := 0; k < n; k++ {
+		r := rng.Fork()
+		names := distinctNames(r, 4, false)
 		in := []string{"CONC", hour, orgTok(r)}
-		nth := 16
-		for t := 0; t < nth; t++ {
+		for t := 0; t < 16; t++ {
 			in = append(in, "T")
 			for j := r.Range(1, 2); j > 0; j-- {
 				x := names[r.Intn(len(names))]
@@ -801,7 +942,72 @@ func generate(cfg *hx.Config, rng *hx.RNG) []genCase {
 		cfg.Count("class=concurrent")
 		add("conc", in)
 	}
-	return cs
+}
+
+// genShared: every requester goes through the SAME *tls.Config obtained from
+// TLSForHost(fallback) or the SAME one from TLS(), with different SNIs and
+// with no SNI (fallback) at the same time, in tight loops; each answer is
+// checked against the name that requester asked for.  nexp cases keep going
+// across the expiry of the cached certificates (validity 2 s).
+func genShared(cfg *hx.Config, rng *hx.RNG, add func(string, []string), nham, nexp, rounds int, race bool) {
+	for k := 0; k < nham+nexp; k++ {
+		r := rng.Fork()
+		expiry := k >= nham
+		fbn, fbc := pickName(r) // the CONNECT authority: any class
+		snis := distinctNames(r, 3, true)
+		for i := range snis {
+			for strings.EqualFold(snis[i].v, fbn) {
+				snis[i] = distinctNames(r, 1, true)[0]
+			}
+		}
+		fb := net.JoinHostPort(fbn, ports[r.Intn(len(ports))])
+		if r.Chance(1, 4) {
+			fb = fbn
+		}
+		in := []string{"SHARED", hour, orgTok(r), fmt.Sprintf("n%d", rounds), "p0", "b" + hx.HexS(fb)}
+		nth := 16
+		if expiry {
+			in[1], in[3], in[4] = "v2000", "n45", "p80"
+			nth = 8
+		}
+		mkop := func(form int, t int) string {
+			q := reqOp{kind: 'G', scope: "i", api: "F", fb: fb}
+			switch form {
+			case 0: // no SNI: the fallback names the host
+				q.vname = fbn
+				cfg.Count("shared=fallback")
+			case 1: // SNI through the shared TLSForHost config
+				x := snis[r.Intn(len(snis))]
+				q.sni, q.vname = x.v, x.v
+				cfg.Count("shared=sni-forhost")
+			default: // SNI through the shared TLS() config
+				x := snis[r.Intn(len(snis))]
+				q.api, q.fb, q.sni, q.vname = "T", "", x.v, x.v
+				cfg.Count("shared=sni-TLS")
+			}
+			q.others = otherFor(q.vname)
+			if (cfg.Thorough() && r.Chance(1, 8)) || (!cfg.Thorough() && !race && t == 5) {
+				q.kind = 'H'
+			}
+			return q.token()
+		}
+		for t := 0; t < nth; t++ {
+			in = append(in, "T")
+			// threads alternate so that fallback and SNI requesters always coexist on the TLSForHost config
+			in = append(in, mkop(t%3, t))
+			if r.Bool() {
+				in = append(in, mkop(r.Intn(3), t))
+			}
+		}
+		in = append(in, "F", mkop(0, -1), mkop(1, -1), mkop(2, -1))
+		_ = fbc
+		if expiry {
+			cfg.Count("class=shared-expiry")
+		} else {
+			cfg.Count("class=shared-hammer")
+		}
+		add("shared", in)
+	}
 }
 
 func main() {
@@ -823,8 +1029,18 @@ func main() {
 	for _, c := range pre {
 		all = append(all, genCase{c.Name, c.In})
 	}
+	concOnly := cfg.Extra == "conconly"
+	if concOnly && !replayOnly {
+		all = nil // the corpus already ran in the main run
+	}
 	if !replayOnly {
-		all = append(all, generate(cfg, hx.NewRNG(cfg.Seed))...)
+		gen := generate(cfg, hx.NewRNG(cfg.Seed), concOnly)
+		if concOnly {
+			for i := range gen {
+				gen[i].name = "race-" + gen[i].name
+			}
+		}
+		all = append(all, gen...)
 	}
 	// run in a worker pool (cases with sleeps overlap); emit in order
 	outs := make([][]string, len(all))
@@ -869,10 +1085,10 @@ func main() {
 }
 
 func hasSleep(in []string) bool {
-	for _, t := range in {
-		if t != "" && (t[0] == 'A' || t[0] == 'S') {
+	for i, t := range in {
+		if i >= 3 && t != "" && (t[0] == 'A' || t[0] == 'S') {
 			return true
 		}
 	}
-	return false
+	return len(in) > 4 && in[0] == "SHARED" && in[4] != "p0"
 }
